@@ -13,7 +13,7 @@ RULE = ("rule trees nested 1..4 levels; every level has a selector list of 1..3 
         "combinators ' ', >, ~, +, leading combinators) built from element types, classes, ids, placeholders, attributes "
         "(bare, op+value, quoted, modifier) and pseudo-classes/elements (plain, :not/:is/:where/:has with selector "
         "arguments, nth-child); `&` in every position: alone, with trailing simple selectors, with a name suffix (&-x), "
-        "left/right of combinators, several times, inside pseudo-class arguments; declarations before, between and "
+        "left/right of combinators, several times, inside pseudo-class arguments, `&#id` on parents that have an id; declarations before, between and "
         "after nested rules; @at-root with `&`; both output styles. Non-trivial = at least two nested levels.")
 TRUSTED = ["props/_sel.py: the AST object printed as SCSS text (for rsass) and as a term (for the model)",
            "the SCSS front end (parser/selectors.rs, sass/selectors.rs) delivering that AST to css::SelectorSet — "
@@ -61,7 +61,7 @@ def g_simple_compound(rng, allow_ph=True, allow_pseudo_sel=True, depth=0):
         j = rng.random()
         if j < 0.5:
             c.classes.append(rng.choice(CLASSES))
-        elif j < 0.58 and c.id is None:
+        elif j < 0.62 and c.id is None:
             c.id = rng.choice(IDS)
         elif j < 0.68:
             c.attrs.append(fix_attr(g_attr(rng)))
@@ -107,6 +107,8 @@ def amp_tail(rng, c=None):
             c.attrs.append(fix_attr(g_attr(rng)))
         elif j < 0.85:
             c.pseudos.append(Pseudo("before", True))
+        elif j < 0.93 and c.id is None:
+            c.id = rng.choice(IDS + ["j"])
         else:
             c.classes.append(rng.choice(CLASSES))
     return c
@@ -116,6 +118,15 @@ def g_amp_sel(rng, suffix_ok, pseudo_ok=True):
     k = rng.random()
     if not pseudo_ok:
         k *= 0.8
+    if k < 0.05:
+        c = Compound(backref=True, id=rng.choice(IDS + ["j"]))
+        if suffix_ok and rng.random() < 0.3:
+            c.elem = rng.choice(["-x", "_s"])
+        if rng.random() < 0.4:
+            c.classes.append(rng.choice(CLASSES))
+        if rng.random() < 0.3:
+            return Sel(g_simple_compound(rng), [(rng.choice("ap"), c)]), "amp-id"
+        return Sel(c), "amp-id"
     if k < 0.22:
         return Sel(amp_tail(rng)), "amp-tail"
     if k < 0.36 and suffix_ok:
@@ -239,6 +250,11 @@ def fixed_cases():
                                                Rule([S(C(elem="c"))], [Decl("w"), Rule([S(C(elem="d"))], [Decl("v")])])])])
     add("dedup", [Rule([a], [Rule([S(amp(classes=["a"]))], [Decl("x")])])])
     add("pseudo-elem-order", [Rule([S(C(elem="a", pseudos=[P("before")]))], [Rule([S(amp(pseudos=[P("hover")]))], [Decl("x")])])])
+    idc = lambda i, **kw: C(id=i, **kw)
+    add("id-suffix", [Rule([S(idc("a"))], [Rule([S(amp(id="b"))], [Decl("x")])])])
+    add("id-suffix2", [Rule([S(idc("a", classes=["x"])), S(C(elem="b"), [("p", idc("i"))])],
+                            [Rule([S(amp(id="b", classes=["y"])), S(C(elem="c"), [("a", amp(id="a"))])], [Decl("x")])])])
+    add("id-suffix3", [Rule([S(idc("a"))], [Rule([S(amp(elem="-x", id="b"))], [Decl("x")])])])
     add("at-root", [Rule([a], [Rule([S(amp(elem="-b"))], [Decl("x")], at_root=True)])])
     add("right-amp", [Rule([a, b], [Rule([S(C(elem="b"), [("p", amp(elem="-c"))])], [Decl("x")])])])
     return out
@@ -333,8 +349,10 @@ class Orc:
         if elem in ("*", "*|*") and (base.classes or base.phs or base.id is not None or base.pseudos):
             elem = None  # `*.a` is `.a`
         if c.id is not None and base.id is not None:
-            raise NotApplicable()
-        return Compound(False, elem, base.phs + c.phs, base.classes + c.classes, base.id if c.id is None else c.id,
+            new_id = base.id + "#" + c.id      # `#a` + `&#b` is `#a#b`: both ids stay
+        else:
+            new_id = base.id if c.id is None else c.id
+        return Compound(False, elem, base.phs + c.phs, base.classes + c.classes, new_id,
                         base.attrs + c.attrs, base.pseudos + self.pseudos(c.pseudos, outers))
 
     def resolve(self, s, outers):
